@@ -381,6 +381,14 @@ class ExprMixin:
             return [(st, Val(STR, z3.Concat(a.z, b.z), conc=conc))]
         if ka == "list" and kb == "list" and isinstance(op, ast.Add):
             return [(st, self.lib.list_concat(a, b))]
+        if isinstance(op, ast.Mult) and ((ka == "list" and kb in ("int", "bool")) or (kb == "list" and ka in ("int", "bool"))):
+            L, n = (a, b) if ka == "list" else (b, a)
+            nz = self.coerce(n, INT).z
+            ln = self.list_len(L)
+            j = z3.Int(fresh_name("rj"))
+            cnt = z3.If(nz > 0, nz, z3.IntVal(0))
+            at = z3.Lambda([j], z3.Select(self.list_at(L), z3.If(ln > 0, j % ln, j)))
+            return [(st, self.mk_list(L.t, cnt * ln, at))]
         if ka == "str" and isinstance(op, ast.Mult) and a.conc is not None and b.conc is not None:
             return [(st, self.const_val(a.conc * b.conc))]
         raise Unsupported(f"operator {type(op).__name__} on {tstr(a.t)} and {tstr(b.t)}", node, self.path)
